@@ -149,8 +149,10 @@ func CheckC01(c *Ctx) {
 					c.checkJoin("C01", r, st)
 				}
 			}
+			c.fillNeutrality(fi, r)
 		}
 	}
+	run.Floor("filled_closure_inputs", 3)
 	for _, h := range helperComposites {
 		fi := c.P.Func("helper", h)
 		if fi == nil {
